@@ -132,6 +132,8 @@ Pre(T) == CASE T.k = "rec" -> IF T.d = 0 THEN [g |-> "st", f |-> <<[g |-> "n", a
             [] T.k = "str" -> [g |-> "s", c |-> "old"]
             [] T.k = "num" -> [g |-> "n", as |-> "num", c |-> "p9"]
             [] T.k = "iface" -> [g |-> "s", c |-> "old"]
+            \* "ifp": an interface{} destination that already holds a non-nil pointer to an E
+            [] T.k = "ifp" -> [g |-> "i", t |-> [k |-> "ptr", e |-> T.e], v |-> [g |-> "p", e |-> Pre(T.e)]]
             [] T.k = "raw" -> [g |-> "raw", d |-> [j |-> "n", c |-> "p9"]]
             [] T.k = "bytes" -> [g |-> "by", c |-> "old"]
             [] T.k = "uj" -> [g |-> "uj", d |-> [j |-> "n", c |-> "p9"]]
@@ -257,11 +259,17 @@ Dec(T0, J, old, o) ==
   IF J.j = "x" THEN Hard
   ELSE IF T.k = "uj" THEN (IF HasX(J) THEN Hard ELSE Ok([g |-> "uj", d |-> J]))
   ELSE IF T.k = "raw" THEN (IF HasX(J) THEN Hard ELSE Ok([g |-> "raw", d |-> J]))
-  ELSE IF J.j = "null" THEN (IF T.k \in {"ptr", "slice", "map", "iface", "bytes"} THEN Ok(Nil) ELSE Ok(old))
+  ELSE IF J.j = "null" THEN (IF T.k \in {"ptr", "slice", "map", "iface", "ifp", "bytes"} THEN Ok(Nil) ELSE Ok(old))
   ELSE IF T.k = "ptr" THEN
        LET r == Dec(T.e, J, IF old = Nil THEN Zero(T.e) ELSE old.e, o)
        IN [hard |-> r.hard, soft |-> r.soft, v |-> [g |-> "p", e |-> r.v]]
   ELSE IF T.k = "iface" THEN Generic(J, o)
+  ELSE IF T.k = "ifp" THEN
+       \* an interface holding a non-nil pointer is decoded INTO the pointee (encoding/json's indirect); null (above) clears the
+       \* interface itself; an empty interface gets the generic value
+       (IF old = Nil \/ old.g # "i" THEN Generic(J, o)      \* (a generic value stored by an earlier duplicate key is replaced, too)
+        ELSE LET r == Dec(T.e, J, old.v.e, o)
+             IN [hard |-> r.hard, soft |-> r.soft, v |-> [g |-> "i", t |-> [k |-> "ptr", e |-> T.e], v |-> [g |-> "p", e |-> r.v]]])
   ELSE IF T.k = "ut" THEN (IF J.j = "s" THEN (IF J.c = "sctl" \/ (J.c = "ssur" /\ o.ue) THEN Hard ELSE Ok([g |-> "ut", c |-> J.c])) ELSE Mismatch(J))
   ELSE IF T.k = "bool" THEN (IF J.j \in {"t", "f"} THEN Ok([g |-> "b", b |-> J.j = "t"]) ELSE Mismatch(J))
   ELSE IF T.k = "str" THEN (IF J.j = "s" THEN StrVal(J.c, o) ELSE Mismatch(J))
